@@ -319,7 +319,7 @@ func main() {
 				reservoir[(int(h[2])<<8|int(h[3]))%400] = e
 			}
 		}
-		if len(rep.Samples) < 3 && nontrivial && first {
+		if len(rep.Samples) < 3 && nontrivial && first && len(line) < 20000 { // samples are for reading: small cases only
 			rep.Samples = append(rep.Samples, J{"op": c.Op, "impl": stripPrivate(res)})
 		}
 	}
